@@ -31,6 +31,12 @@ def traverse_facts(ctx, cq):
             fb = st
     if fb is None:
         raise AnalysisError("%s._traverse: file branch `if os.path.isfile(path)` not found" % cls.name)
+    fbn = fb
+    if isinstance(fb.test, ast.UnaryOp) and isinstance(fb.test.op, ast.Not) and not fb.orelse and fb.body and isinstance(fb.body[-1], ast.Return):
+        # `if not isfile(path): <directory part>; return tree` followed by the file part: the same two arms, the other way round
+        fb = _Arm(fbn, fn.node.body[fn.node.body.index(fbn) + 1:])
+    elif isinstance(fb.test, ast.UnaryOp) and isinstance(fb.test.op, ast.Not) and fb.orelse:
+        fb = _Arm(fbn, fb.orelse)
     body_nodes = [n for st in fb.body for n in ast.walk(st)]
     # size
     sz = [n for n in body_nodes if isinstance(n, ast.Assign) and isinstance(n.value, ast.Call) and C.is_ext_call(ctx, n.value, fn, ("os.path.getsize",))]
@@ -38,8 +44,9 @@ def traverse_facts(ctx, cq):
         sv = sz[0].targets[0].id
         F["size"] = Fact("getsize(path)", sz[0], fn)
     else:
-        F["size"] = Fact((norm(sz[0].value).replace("os.path.", "") if len(sz) == 1 else "?%d getsize calls" % len(sz)), sz[0] if sz else fb, fn)
+        F["size"] = Fact((norm(sz[0].value).replace("os.path.", "") if len(sz) == 1 else "?%d getsize calls" % len(sz)), sz[0] if sz else fbn, fn)
         sv = sz[0].targets[0].id if sz and isinstance(sz[0].targets[0], ast.Name) else "?"
+    size_known = sv != "?" and len(sz) == 1
     # hasher construction
     hc = [n for n in body_nodes if isinstance(n, ast.Call) and any(k[0] == "class" and k[1].name in HASHERS for k in ctx.res.kinds(n.func, fn))]
     hv = None
@@ -51,7 +58,7 @@ def traverse_facts(ctx, cq):
         a1 = norm(hc[0].args[1]) if len(hc[0].args) > 1 else "?"
         F["hasher"] = Fact("%s(path, self.piece_length)" % cname if (a0, a1) == (p, "self.piece_length") else "%s(%s, %s)" % (cname, a0, a1), hc[0], fn)
     else:
-        F["hasher"] = und("expected exactly one hasher construction, found %d" % len(hc), fb, fn)
+        F["hasher"] = und("expected exactly one hasher construction, found %d" % len(hc), fbn, fn)
     # empty file: early return of a length-only leaf that dominates the hasher
     leafs = [n for n in body_nodes if isinstance(n, ast.Return) and isinstance(n.value, ast.Dict) and len(n.value.keys) == 1 and const_str(n.value.keys[0]) == ""
              and isinstance(n.value.values[0], ast.Dict)]
@@ -80,8 +87,13 @@ def traverse_facts(ctx, cq):
         F["empty.leaf"] = Fact(ef, empty[0], fn)
         lv = norm(empty[0].value.values[0].values[0])
         F["empty.length"] = Fact("length = size" if lv == sv else "length = " + lv, empty[0], fn)
+    elif not full:
+        # neither kind of leaf is written in this function (a helper builds them): not a finding
+        F["empty.leaf"] = und("the leaves are not built in this function", fbn, fn)
+    elif empty:
+        F["empty.leaf"] = und("%d length-only leaf literals in this function: which of them answers for an empty file is not decided" % len(empty), empty[0], fn)
     else:
-        F["empty.leaf"] = Fact(ef, fb, fn)
+        F["empty.leaf"] = Fact(ef, fbn, fn)
     ab = _abbreviations(fn)
     if len(full) == 1:
         d = {const_str(k): ab.get(norm(v), norm(v)) for k, v in zip(full[0].value.values[0].keys, full[0].value.values[0].values)}
@@ -93,7 +105,7 @@ def traverse_facts(ctx, cq):
         else:
             F["leaf"] = Fact("{length: size, pieces root: hasher.root}" if d.get("length") == sv and d.get("pieces root") == "%s.root" % hv else "{length: %s, pieces root: %s}" % (d.get("length"), d.get("pieces root")), full[0], fn)
     else:
-        F["leaf"] = und("leaf literal with length and pieces root not found", fb, fn)
+        F["leaf"] = und("leaf literal with length and pieces root not found", fbn, fn)
     # piece-layer membership
     pls = [n for n in body_nodes if isinstance(n, ast.Assign) and isinstance(n.targets[0], ast.Subscript) and "piece_layers" in norm(n.targets[0].value)]
     if len(pls) == 1:
@@ -128,7 +140,7 @@ def traverse_facts(ctx, cq):
         else:
             F["layer.value"] = Fact("?" + val, st, fn)
     else:
-        F["layer.member"] = und("piece-layers store not found", fb, fn)
+        F["layer.member"] = und("piece-layers store not found", fbn, fn)
     # ---- directory branch (in the traversal itself, or in a helper it hands the path to as its last statement)
     dirfacts, holder = _dir_part(ctx, fn, fn, p, set(map(id, body_nodes)), frozenset())
     F.update(dirfacts)
@@ -180,6 +192,12 @@ def traverse_facts(ctx, cq):
         else:
             F["entry.call"] = Fact("entered on the content root, outside any loop, result stored as info['file tree']", entries[0][1], entries[0][0])
     F["single.key"] = single_file_key(ctx, cls, fn)
+    if not size_known:
+        # the file's size is not taken by one `size = os.path.getsize(path)` of this function (it comes out of a record, a
+        # helper): which variable holds it is not known, so nothing can be stated about the facts that speak of it
+        for k in ("empty.leaf", "empty.length", "leaf", "layer.member"):
+            if k in F and F[k].value != UND:
+                F[k] = und("the variable holding the file's size was not identified (no single `size = os.path.getsize(path)` in this function)", F[k].node, fn)
     if hv is None:
         # the per-file hasher is obtained in a way this extractor does not follow (a factory attribute, a helper): what the
         # leaf, the layer and the empty-file arm say about *its* attributes cannot be stated
@@ -187,6 +205,13 @@ def traverse_facts(ctx, cq):
             if k in F and F[k].value != UND:
                 F[k] = und("the per-file hasher is not constructed in this function: its attributes cannot be identified", F[k].node, fn)
     return F, fn, fb, sv, hv
+
+
+class _Arm:
+    """The statements executed for a regular file, and the `if` that selects them (when they are not simply its body)."""
+
+    def __init__(self, node, body):
+        self.node, self.body = node, body
 
 
 FLAT_ENTRY = "called once per file of a flat listing sorted by full path"
@@ -340,6 +365,10 @@ def _dir_part(ctx, top, H, p, skip, rec_params, depth=0):
             srt = sl is not None and norm(sl[0]) == p
         return Fact("sorted(os.listdir(path))" if srt else norm(it), it, H)
     loops = [n for n in own_nodes(H.node) if isinstance(n, ast.For) and id(n) not in skip]
+    # the directory loop is the one that descends: other loops of the function (over hashes, over records) are not it
+    descending = [l for l in loops if any(is_rec(x) for st in l.body for x in ast.walk(st))]
+    if descending or not any(is_rec(x) for x in own_nodes(H.node)):
+        loops = descending if descending else loops
     comps = [n for n in H.node.body if isinstance(n, ast.Return) and isinstance(n.value, ast.DictComp)]
     if len(loops) == 1 and not comps:
         l = loops[0]
@@ -493,6 +522,7 @@ def hybrid_entry_facts(ctx, cq, fn, fb, sv, hv):
     """C03.1 / C03.2: the v1 file list built during the traversal."""
     g = C.cfg_of(fn)
     F = {}
+    fbn = getattr(fb, "node", fb)
     body_nodes = [n for st in fb.body for n in ast.walk(st)]
     apps = [n for n in body_nodes if isinstance(n, ast.Call) and isinstance(n.func, ast.Attribute) and n.func.attr == "append" and norm(n.func.value) == "self.files" and n.args]
     # the record may be built by a one-expression helper (`self._file_entry(path, size)`): read through it
@@ -509,19 +539,19 @@ def hybrid_entry_facts(ctx, cq, fn, fb, sv, hv):
             and isinstance(pv.func.value, ast.Call) and C.is_ext_call(ctx, pv.func.value, fn, ("os.path.relpath",)) and [norm(a) for a in pv.func.value.args] == [p, "self.path"]
         F["entry"] = Fact("{length: size, path: relpath(path, root).split(sep)}" if lv == sv and rel and set(d) == {"length", "path"} else "{%s}" % ", ".join("%s: %s" % (k, norm(v)) for k, v in d.items()), real[0], fn)
         rn = C.stmt_node(ctx, fn, real[0])
-        deps = [(norm(C.test_expr(b)), lab) for b, lab in g.direct_control_deps(rn) if C.test_expr(b) is not None and b.ast is not fb]
+        deps = [(norm(C.test_expr(b)), lab) for b, lab in g.direct_control_deps(rn) if C.test_expr(b) is not None and b.ast is not fbn]
         deps = [d2 for d2 in deps if d2 != (flag, "true")]
         rets = [n for n in body_nodes if isinstance(n, ast.Return)]
         before_all = all(C.stmt_node(ctx, fn, r) in g.reachable(rn) for r in rets)
         F["entry.once"] = Fact("appended once for every file (empty ones included), before the leaf is returned" if not deps and before_all and not C.in_loop(ctx, fn, real[0])
                                else "appended under %s%s" % (deps or "no condition", "" if before_all else "; not before every return"), real[0], fn)
     else:
-        F["entry"] = und("expected one non-padding entry append, found %d" % len(real), fb, fn)
+        F["entry"] = und("expected one non-padding entry append, found %d" % len(real), fbn, fn)
     if len(pads) == 1:
         a = pads[0]
         src = norm(a.args[0])
         pn = C.stmt_node(ctx, fn, a)
-        conds = sorted(norm(C.test_expr(b)) for b, lab in g.direct_control_deps(pn) if C.test_expr(b) is not None and lab == "true" and b.ast is not fb)
+        conds = sorted(norm(C.test_expr(b)) for b, lab in g.direct_control_deps(pn) if C.test_expr(b) is not None and lab == "true" and b.ast is not fbn)
         want_conds = [c for c in conds if c not in (flag,)]
         foreign_pad = _foreign_object(src, fn, hv) or (src if _bare_local(src, fn, {hv}) else None)
         ok_src = src == "%s.padding_file" % hv
@@ -531,7 +561,7 @@ def hybrid_entry_facts(ctx, cq, fn, fb, sv, hv):
                                   "append(%s) under %s%s" % (src, conds, "" if after else " before the file entry"), a, fn) if not foreign_pad else \
             und("the padding entry is read from `%s`, an object other than the per-file hasher, which the extractor does not follow" % src, a, fn)
     else:
-        F["padding.entry"] = und("expected one padding entry append, found %d" % len(pads), fb, fn)
+        F["padding.entry"] = und("expected one padding entry append, found %d" % len(pads), fbn, fn)
     # pieces
     pe = [n for n in body_nodes if isinstance(n, ast.Call) and isinstance(n.func, ast.Attribute) and n.func.attr == "extend" and norm(n.func.value) == "self.pieces"]
     if len(pe) == 1:
@@ -557,7 +587,7 @@ def hybrid_entry_facts(ctx, cq, fn, fb, sv, hv):
             F["v1.pieces"] = Fact("extended with the hasher's v1 piece hashes" if ok else "extend(%s)" % v, pe[0], fn) if ok or not (_foreign_object(v, fn, hv) or _bare_local(v, fn, {hv})) else \
                 und("the v1 piece hashes are read from `%s`, an object other than the per-file hasher, which the extractor does not follow" % v, pe[0], fn)
     else:
-        F["v1.pieces"] = und("expected one extension of self.pieces, found %d" % len(pe), fb, fn)
+        F["v1.pieces"] = und("expected one extension of self.pieces, found %d" % len(pe), fbn, fn)
     if hv is None:
         for k in ("padding.entry", "v1.pieces"):
             if k in F and F[k].value != UND:
